@@ -1,8 +1,7 @@
 #!/usr/bin/env python3
 """Regenerates mutants/*.diff and benign/*.diff against the CURRENT /repo (run by hand).
-Every mutant = the hunks of findings/td_guard_x_fix.diff and findings/ri_without_solidus_fix.diff (without them the
-round_trip obligation already fails on /repo) + ONE property-breaking edit.  If the fixes are committed to /repo the
-fix step becomes a no-op and the diffs carry only the edit."""
+Every mutant = ONE property-breaking edit of /repo.  (On trees older than a36c21f / 0a73882 the two repairs of
+findings/ are applied first and carried in the diff, because without them round_trip already fails.)"""
 import os, subprocess, tempfile, shutil
 HERE = os.path.dirname(os.path.abspath(__file__))
 F = 'pdf/src/content.rs'
@@ -49,13 +48,12 @@ MUTANTS = {
     lambda t: edit(t, '                writeln!(f, "{} l", p)?;\n                current_point = Some(p);', '                writeln!(f, "{} l", p)?;')),
  'tj_without_separator': ('serialize_ops/', 'TJ array elements written without the separating blank (`-5 3.5` becomes `-53.5`)',
     lambda t: edit(t, '                    if i > 0 {\n                        write!(f, " ")?;\n                    }\n', '')),
+ 'td_guard_on_x': ('serialize_ops/round_trip', 'TD merge guarded by leading == -translation.x again (reverts a36c21f; findings/td_guard_x.md)',
+    lambda t: edit(t, 'if leading == -translation.y => {', 'if leading == -translation.x => {')),
+ 'ri_without_solidus': ('serialize_ops/round_trip', 'rendering intent written as a bare word again (reverts 0a73882; findings/ri_without_solidus.md)',
+    lambda t: edit(t, '                serialize_name(intent.to_str(), f)?;\n                writeln!(f, " ri")?;', '                writeln!(f, "{} ri", intent.to_str())?;')),
  'quote_merge_across_gap': ('serialize_ops/', "`'` merge looks two operations ahead: TextNewline, X, TextDraw merged and X dropped",
     lambda t: edit(t, 'if let [Op::TextDraw { ref text }, ..] = ops[1..] {', 'if let [_, Op::TextDraw { ref text }, ..] = ops[1..] {')),
-}
-# the pinned TD guard with only the `ri` repair: the finding itself, kept as a regression mutant
-PINNED = {
- 'td_guard_on_x': ('serialize_ops/round_trip', 'TD merge guarded by leading == -translation.x (the pinned text; findings/td_guard_x.md)', 0),
- 'ri_without_solidus': ('serialize_ops/round_trip', 'rendering intent written as a bare word (the pinned text; findings/ri_without_solidus.md)', 1),
 }
 BENIGN = {
  'swap_save_restore_arms': lambda t: edit(t, '            Op::Save => writeln!(f, "q")?,\n            Op::Restore => writeln!(f, "Q")?,\n',
@@ -85,17 +83,12 @@ def mkdiff(new_text, header, out):
 
 
 # a failing run costs 10-20 minutes (see NOTES.md "Performance"): bin/mutants runs mutants/, the rest sits in mutants_extra/
-EXTRA = {'lineto_keeps_current_point', 'tj_without_separator', 'quote_merge_across_gap', 'ri_without_solidus'}
+EXTRA = {'lineto_keeps_current_point', 'tj_without_separator', 'quote_merge_across_gap', 'ri_without_solidus', 'window_dquote_drops_op'}
 for d in ('mutants', 'mutants_extra'):
     os.makedirs(os.path.join(HERE, d), exist_ok=True)
 for name, (expect, what, fn) in MUTANTS.items():
-    mkdiff(fn(fixed(src)), '# expect: %s\n# %s\n# (carries the hunks of findings/td_guard_x_fix.diff and findings/ri_without_solidus_fix.diff, see gen_mutants.py)\n' % (expect, what),
+    mkdiff(fn(fixed(src)), '# expect: %s\n# %s\n' % (expect, what),
            os.path.join(HERE, 'mutants_extra' if name in EXTRA else 'mutants', name + '.diff'))
-for name, (expect, what, skip) in PINNED.items():
-    t = fixed(src, skip=(skip,))
-    if t == src:
-        continue
-    mkdiff(t, '# expect: %s\n# %s\n' % (expect, what), os.path.join(HERE, 'mutants_extra' if name in EXTRA else 'mutants', name + '.diff'))
 for name, fn in BENIGN.items():
     mkdiff(fn(fixed(src)), '# benign edit: must NOT be reported as failed\n', os.path.join(HERE, 'benign', name + '.diff'))
 print('mutants:', sorted(os.listdir(os.path.join(HERE, 'mutants'))))
